@@ -194,7 +194,7 @@ func kwCase(w, mode string) string {
 	return w
 }
 
-var wsText = map[string]string{"sp": " ", "sp2": "  ", "nl": "\n", "tab": "\t", "nlsp": "\n   ", "cmt": " /* c */ "}
+var wsText = map[string]string{"sp": " ", "sp2": "  ", "nl": "\n", "tab": "\t", "nlsp": "\n   ", "cmt": " /* c */ ", "tight": " "}
 
 func refText(r refT) string {
 	n := r.Name
@@ -253,6 +253,11 @@ func renderC16(q *refsQuery) string {
 		return ", " + p + "fx"
 	}
 	r1, r2 := refText(q.R1), refText(q.R2)
+	// "tight": no white space where SQL allows none (AS(  )SELECT  IN(  FROM( )
+	op, cl := " (", ") "
+	if q.Ws == "tight" {
+		op, cl = "(", ")"
+	}
 	var s string
 	switch q.Shape {
 	case "single":
@@ -270,13 +275,13 @@ func renderC16(q *refsQuery) string {
 	case "comma":
 		s = K("SELECT") + " " + blk + fnItem("a.", false) + "a.host, b.n " + F + r1 + " a, " + r2 + " b " + K("WHERE") + " a.host = b.host" + decoy("a.", "AND")
 	case "subq_from":
-		s = K("SELECT") + " " + blk + "s.host, s.c" + fxOut("s.") + " " + F + "(" + K("SELECT") + " " + fnItem("", true) + "host, count(*) " + K("AS") + " c " + F + r1 + decoy("", "WHERE") + " " + K("GROUP BY") + " host) s"
+		s = K("SELECT") + " " + blk + "s.host, s.c" + fxOut("s.") + " " + strings.TrimRight(F, " ") + op + K("SELECT") + " " + fnItem("", true) + "host, count(*) " + K("AS") + " c " + F + r1 + decoy("", "WHERE") + " " + K("GROUP BY") + " host) s"
 	case "subq_in":
-		s = K("SELECT") + " " + blk + fnItem("", false) + "host, v " + F + r1 + " " + K("WHERE") + " host " + K("IN") + " (" + K("SELECT") + " host " + F + r2 + " " + K("WHERE") + " v IS NOT NULL)" + decoy("", "AND")
+		s = K("SELECT") + " " + blk + fnItem("", false) + "host, v " + F + r1 + " " + K("WHERE") + " host " + K("IN") + op + K("SELECT") + " host " + F + r2 + " " + K("WHERE") + " v IS NOT NULL)" + decoy("", "AND")
 	case "cte":
-		s = K("WITH") + " x " + K("AS") + " (" + K("SELECT") + " " + fnItem("", false) + "host, v " + F + r1 + ") " + K("SELECT") + " " + blk + "x.host, x.v, b.n" + fxOut("x.") + " " + F + "x " + K("JOIN") + wsText[q.Ws] + r2 + " b " + K("ON") + " x.host = b.host" + decoy("x.", "WHERE")
+		s = K("WITH") + " x " + K("AS") + op + K("SELECT") + " " + fnItem("", false) + "host, v " + F + r1 + cl + K("SELECT") + " " + blk + "x.host, x.v, b.n" + fxOut("x.") + " " + F + "x " + K("JOIN") + wsText[q.Ws] + r2 + " b " + K("ON") + " x.host = b.host" + decoy("x.", "WHERE")
 	case "cte_shadow":
-		s = K("WITH") + " " + q.R1.Name + " " + K("AS") + " (" + K("SELECT") + " " + fnItem("", false) + "host, v " + F + r2 + " " + K("WHERE") + " v IS NOT NULL) " + K("SELECT") + " " + blk + "host, v" + fxOut("") + " " + F + q.R1.Name + decoy("", "WHERE")
+		s = K("WITH") + " " + q.R1.Name + " " + K("AS") + op + K("SELECT") + " " + fnItem("", false) + "host, v " + F + r2 + " " + K("WHERE") + " v IS NOT NULL" + cl + K("SELECT") + " " + blk + "host, v" + fxOut("") + " " + F + q.R1.Name + decoy("", "WHERE")
 	case "union":
 		s = K("SELECT") + " " + blk + fnItem("", false) + "host, v " + F + r1 + " " + K("UNION ALL") + " " + K("SELECT") + " " + fnItem("", false) + "host, v " + F + r2 + decoy("", "WHERE")
 	}
@@ -435,6 +440,7 @@ func runC16(env *sr.Env, in *c16Input, seed int64) *c16Result {
 			c := cur
 			mut(&c)
 			if renderC16(&c) == renderC16(&cur) && c.Header == cur.Header {
+				cur = c // the feature does not show in this shape's text: same query
 				return
 			}
 			// recompute ground truth of the reset query
